@@ -176,4 +176,30 @@ pub mod verif_spec_int {
         lemma_le_val_pad(Seq::<u8>::empty(), n);
         assert(Seq::<u8>::empty() + zeros(n) =~= zeros(n));
     }
+
+    pub proof fn lemma_le_bytes_zero_iff(v: int, n: nat)
+        requires 0 <= v < pow256(n)
+        ensures (le_bytes(v, n) == zeros(n)) == (v == 0)
+    {
+        lemma_le_bytes_len(v, n);
+        lemma_le_val_le_bytes(v, n);
+        lemma_le_val_zeros(n);
+        if v == 0 {
+            lemma_le_val_inj(le_bytes(v, n), zeros(n));
+        }
+    }
+
+    pub proof fn lemma_pow256_32()
+        ensures pow256(32) == 0x10000000000000000000000000000000000000000000000000000000000000000int,
+                pow256(20) == 0x10000000000000000000000000000000000000000int,
+    {
+        reveal(pow);
+        assert(pow256(1) == 256) by { lemma_pow1(256); }
+        lemma_pow_adds(256, 1, 1); assert(pow256(2) == 0x10000);
+        lemma_pow_adds(256, 2, 2); assert(pow256(4) == 0x100000000);
+        lemma_pow_adds(256, 4, 4); assert(pow256(8) == 0x10000000000000000);
+        lemma_pow_adds(256, 8, 8); assert(pow256(16) == 0x100000000000000000000000000000000);
+        lemma_pow_adds(256, 16, 16);
+        lemma_pow_adds(256, 16, 4);
+    }
 }
